@@ -371,7 +371,8 @@ def run(run):
                 if sec == 'geo':
                     obls, _ = section_geometry(rep, _mut(spec))
                 elif sec == 'olson':
-                    obls = [o for p in section_olson_series(rep, 2, 3, _mut(spec)) for o in p if 'altitude' in o.name]
+                    ko = (1, 1) if 'polar radius' in name else (1, 3)
+                    obls = [o for p in section_olson_series(rep, ko[0], ko[1], _mut(spec)) for o in p if 'altitude' in o.name]
                 else:
                     obls = [o for p in section_ecef_to_lla(rep, _mut(spec)) for o in p]
             except common.HarnessError as e:
